@@ -104,7 +104,7 @@ def gen_case(rng, idx, tier):
         cands = [f for f in files if f not in outs and (f not in producer or producer[f] < i)]
         cands = [f for f in cands if f in producer or f not in avail or True]
         ins = rng.sample(cands, min(len(cands), rng.randint(0, 3)))
-        t = {"name": "t%d" % i, "wd_rel": wd, "ins": [], "outs": [], "reassign": rng.random() < 0.25}
+        t = {"name": "t%d" % i, "wd_rel": wd, "ins": [], "outs": [], "reassign": rng.random() < 0.25, "relwd": rng.random() < 0.2}
         for f in ins:
             k = rng.choices(SPELL_KINDS, weights)[0]
             s, isp = spell(rng, k, wd, f)
@@ -140,6 +140,8 @@ def concrete(case, root):
                 "wd": wd,
                 "wd_rel": t["wd_rel"],
                 "reassign": t.get("reassign", False),
+                # a working directory may itself be given relative to the process's directory (the project root)
+                "wd_spelled": ("./" + t["wd_rel"] if t["wd_rel"] else ".") if t.get("relwd") else None,
                 "ins": [x["s"].replace("@ROOT@", root) for x in t["ins"]],
                 "outs": [x["s"].replace("@ROOT@", root) for x in t["outs"]],
                 "ins_l": [gen.leaf_expr(x["s"].replace("@ROOT@", root), x["path"]) for x in t["ins"]],
@@ -210,6 +212,15 @@ def run_case(case):
 def run_lib(case, root, variant, deps, inv, ends, producers, unresolved, res):
     from .. import inproc
 
+    here = os.getcwd()
+    try:
+        _run_lib(case, root, variant, deps, inv, ends, producers, unresolved, res, inproc)
+    finally:
+        os.chdir(here)
+
+
+def _run_lib(case, root, variant, deps, inv, ends, producers, unresolved, res, inproc):
+    os.chdir(root)  # relative working directories are relative to the directory gwf runs in
     for order in case["orders"]:
         vt = [variant[i] for i in order]
         try:
@@ -255,9 +266,9 @@ def run_cli(case, proj, variant, deps, inv, res):
         if t["wd_rel"] and t.get("reassign"):
             # created with the workflow's directory, then moved: the graph must use the directory the
             # target has when the graph is built
-            tl.append(dict(t, route="raw", raw="_t = gwf.target(%r, inputs=%s, outputs=%s)\n_t.working_dir = %r" % (t["name"], t["ins_expr"], t["outs_expr"], t["wd"])))
+            tl.append(dict(t, route="raw", raw="_t = gwf.target(%r, inputs=%s, outputs=%s)\n_t.working_dir = %r" % (t["name"], t["ins_expr"], t["outs_expr"], t.get("wd_spelled") or t["wd"])))
         elif t["wd_rel"]:
-            tl.append(dict(t, route="template", wd_arg=t["wd"]))
+            tl.append(dict(t, route="template", wd_arg=t.get("wd_spelled") or t["wd"]))
         else:
             tl.append(dict(t, route="target"))
     proj.write_workflow(gen.render_workflow(tl))
